@@ -105,6 +105,15 @@ void fiber_manager_yield(fiber_manager_t* manager) {
     manager->yield_count += 1;
     const fiber_state_t state = current_fiber->state;
 
+    // events are otherwise only polled when a thread runs out of fibers:
+    // fibers that keep yielding (e.g. polling for a sleeping fiber or for
+    // I/O) would keep timers and descriptors from ever being serviced.
+    // Only for a plain yield: a fiber that is about to wait may hold an
+    // event spinlock that is released after the switch.
+    if (state == FIBER_STATE_RUNNING && (manager->yield_count & 1023) == 0) {
+      fiber_poll_events();
+    }
+
     fiber_t* const new_fiber = fiber_scheduler_next(manager->scheduler);
     if (new_fiber) {
       fiber_manager_switch_to(manager, current_fiber, new_fiber);
